@@ -148,7 +148,7 @@ def integration(ctx, tmp):
          [["visit", "detector"], ["-detector", "visit"], ["visit.exposure_time", "detector", "visit"], ["-visit.science_program", "visit", "-detector"]]),
         ("visit-tract(where)", ["visit", "tract"], {"instrument": "I", "skymap": "S"}, "visit > 2 AND tract < 5",
          [["visit", "tract"], ["-tract", "-visit"]]),
-        ("visit", ["visit"], {"instrument": "I"}, "visit.exposure_time > 20",
+        ("visit", ["visit"], {"instrument": "I"}, "visit.exposure_time > 20.0",
          [["visit"], ["-visit.exposure_time", "visit"], ["visit.science_program", "visit"]]),
     ]
 
@@ -163,7 +163,6 @@ def integration(ctx, tmp):
             if factor is not None:
                 q._driver._postprocessing_filter_factor = factor
             r = q.data_ids(dims).where(data_id, where or "", bind=None) if where else q.data_ids(dims).where(data_id)
-            r = r.with_dimension_records()
             if order:
                 r = r.order_by(*order)
             if limit is not None:
@@ -178,11 +177,14 @@ def integration(ctx, tmp):
             out["any"] = r.any(execute=True, exact=True)
             return out
 
+    visit_rec = {r.id: r for r in b.query_dimension_records("visit", instrument="I")}
+
     def field(d, term):
         name = term.lstrip("-")
         if "." in name:
             el, f = name.split(".")
-            return getattr(d.records[el], f)
+            assert el == "visit"
+            return getattr(visit_rec[d["visit"]], f)
         return d[name]
 
     def sorted_ok(rows, order):
